@@ -110,6 +110,17 @@ template <class I, class V> static std::string rt_mm_sparse(const Src<V> &s, boo
         std::tie(rows, cols) = r(ptr, col, val, b, en);
         if ((int)rows != en - b || (int)cols != s.n || !is_slice(s, b, en, ptr, col, val)) FAIL("rowrange.mm_sparse", "rows [" << b << "," << en << ") differ from the slice of " << show_src(s));
     }
+    if (!minimal) {
+        // the same ranges read into ONE set of output vectors reused from call to call (they start out holding junk): their previous
+        // content is not an input of the reader
+        std::vector<I> ptr(s.m + 5, I(3)), col(7, I(1)); std::vector<V> val(7, V(2));
+        for (int b = 0; b <= s.m; ++b) for (int en = b; en <= s.m; ++en) {
+            if (!all_ranges && !(b == 0 && en == s.m) && !(b == 1 && en == s.m - 1) && !(b == en)) continue;
+            amgcl::io::mm_reader r(P());
+            size_t rows, cols; std::tie(rows, cols) = r(ptr, col, val, b, en);
+            if ((int)rows != en - b || (int)cols != s.n || !is_slice(s, b, en, ptr, col, val)) FAIL("rowrange.mm_sparse.reused_output", "rows [" << b << "," << en << ") read into reused vectors differ from the slice of " << show_src(s));
+        }
+    }
     if (s.m >= 1 && !minimal) {   // defaults: (b,-1) and (-1,e)
         { amgcl::io::mm_reader r(P()); std::vector<I> ptr, col; std::vector<V> val; r(ptr, col, val, 1, -1); if (!is_slice(s, 1, s.m, ptr, col, val)) FAIL("rowrange.mm_sparse", "rows [1,default) differ for " << show_src(s)); }
         { amgcl::io::mm_reader r(P()); std::vector<I> ptr, col; std::vector<V> val; r(ptr, col, val, -1, s.m - 1); if (!is_slice(s, 0, s.m - 1, ptr, col, val)) FAIL("rowrange.mm_sparse", "rows [default,m-1) differ for " << show_src(s)); }
@@ -142,6 +153,16 @@ template <class SizeT, class I, class V> static std::string rt_bin_sparse(const 
         SizeT n = 0; std::vector<I> p2, c2; std::vector<V> v2;
         amgcl::io::read_crs(P(), n, p2, c2, v2, b, en);
         if ((long long)n != s.m || !is_slice(s, b, en, p2, c2, v2)) FAIL("rowrange.bin_sparse", "rows [" << b << "," << en << ") differ from the slice of " << show_src(s));
+    }
+    if (!minimal) {
+        // reused output vectors that start out holding junk
+        std::vector<I> p2(s.m + 5, I(3)), c2(7, I(1)); std::vector<V> v2(7, V(2));
+        for (int b = 0; b <= s.m; ++b) for (int en = b; en <= s.m; ++en) {
+            if (!all_ranges && !(b == 0 && en == s.m) && !(b == 1 && en == s.m - 1) && !(b == en)) continue;
+            SizeT n = 0;
+            amgcl::io::read_crs(P(), n, p2, c2, v2, b, en);
+            if ((long long)n != s.m || !is_slice(s, b, en, p2, c2, v2)) FAIL("rowrange.bin_sparse.reused_output", "rows [" << b << "," << en << ") read into reused vectors differ from the slice of " << show_src(s));
+        }
     }
     return "";
 }
